@@ -768,5 +768,583 @@ theorem compact_reads_same {s s' : Lsm} {cd : CompactDef} {d n now' now ts : Nat
   simp only [pick_assoc] at core ⊢
   exact core
 
+/-- `Layered` in terms of where entries are stored -/
+theorem layered_iff (s : Lsm) : Layered s ↔
+    (s.mem :: s.imm.reverse).Pairwise RecL ∧
+    (∀ x ∈ memEnts s, ∀ (i : Nat) (tbls : List Tbl) (t : Tbl), s.levels[i]? = some tbls → t ∈ tbls →
+      ∀ e ∈ t.ents, x.key = e.key → e.ver ≤ x.ver) ∧
+    (∀ (i i' : Nat) (tbls tbls' : List Tbl) (t t' : Tbl), s.levels[i]? = some tbls → s.levels[i']? = some tbls' →
+      i < i' → t ∈ tbls → t' ∈ tbls' → RecL t.ents t'.ents) ∧
+    (∀ (l0 : List Tbl) (j j' : Nat) (a b : Tbl), s.levels[0]? = some l0 → l0[j]? = some a → l0[j']? = some b →
+      j' < j → RecL a.ents b.ents) := by
+  constructor
+  · intro h
+    refine ⟨?_, ?_, ?_, ?_⟩
+    · rw [layered_def] at h
+      unfold Lsm.sources at h
+      exact (List.pairwise_append.mp h).1
+    · intro x hx i tbls t hi ht e he hk
+      exact layered_mem_level h hx hi ht he hk
+    · intro i i' tbls tbls' t t' hi hi' hlt ht ht' x hx e he hk
+      exact layered_levels h hi hi' hlt ht ht' hx he hk
+    · intro l0 j j' a b h0 hj hj' hlt x hx e he hk
+      exact layered_l0 h h0 hj hj' hlt hx he hk
+  · rintro ⟨p1, p2, p3, p4⟩
+    rw [layered_def]
+    unfold Lsm.sources
+    cases hl : s.levels with
+    | nil =>
+      simp only [List.append_nil]
+      exact p1
+    | cons l0 rest =>
+      rw [hl] at p2 p3 p4
+      simp only
+      rw [List.pairwise_append]
+      refine ⟨p1, ?_, ?_⟩
+      · rw [List.pairwise_append]
+        refine ⟨?_, ?_, ?_⟩
+        · rw [List.pairwise_map, List.pairwise_reverse, List.pairwise_iff_getElem]
+          intro j' j hj' hj hlt
+          exact p4 l0 j j' l0[j] l0[j'] rfl (List.getElem?_eq_getElem hj) (List.getElem?_eq_getElem hj') hlt
+        · rw [List.pairwise_map, List.pairwise_iff_getElem]
+          intro i i' hi hi' hlt x hx e he hk
+          obtain ⟨l, hl', hxl⟩ := List.mem_flatten.mp hx
+          obtain ⟨t, ht, rfl⟩ := List.mem_map.mp hl'
+          obtain ⟨l2, hl2, hel⟩ := List.mem_flatten.mp he
+          obtain ⟨t', ht', rfl⟩ := List.mem_map.mp hl2
+          exact p3 (i + 1) (i' + 1) rest[i] rest[i'] t t' (by simp) (by simp) (by omega) ht ht' x hxl e hel hk
+        · intro a ha c hc x hx e he hk
+          obtain ⟨t, ht, rfl⟩ := List.mem_map.mp ha
+          obtain ⟨tbls', htb, rfl⟩ := List.mem_map.mp hc
+          obtain ⟨l2, hl2, hel⟩ := List.mem_flatten.mp he
+          obtain ⟨t', ht', rfl⟩ := List.mem_map.mp hl2
+          obtain ⟨i', hi', rfl⟩ := List.getElem_of_mem htb
+          exact p3 0 (i' + 1) l0 rest[i'] t t' rfl (by simp) (by omega) (List.mem_reverse.mp ht) ht' x hx e hel hk
+      · intro m hm c hc x hx e he hk
+        have hxm : x ∈ memEnts s := mem_memEnts.mpr ⟨m, hm, hx⟩
+        rcases List.mem_append.mp hc with hc | hc
+        · obtain ⟨t, ht, rfl⟩ := List.mem_map.mp hc
+          exact p2 x hxm 0 l0 t rfl (List.mem_reverse.mp ht) e he hk
+        · obtain ⟨tbls', htb, rfl⟩ := List.mem_map.mp hc
+          obtain ⟨l2, hl2, hel⟩ := List.mem_flatten.mp he
+          obtain ⟨t', ht', rfl⟩ := List.mem_map.mp hl2
+          obtain ⟨i', hi', rfl⟩ := List.getElem_of_mem htb
+          exact p2 x hxm (i' + 1) rest[i'] t' (by simp) ht' e hel hk
+
+/-- where an entry of the state after a compaction was stored before it -/
+theorem entry_origin {s : Lsm} {cd : CompactDef} {d n now : Nat} {new0 : List Tbl} (h : LsmInv s)
+    (hc : CompactOk s cd) (hsp : splitSizes cd.outSizes (compactOutput s cd d n now).1 = some new0)
+    {i : Nat} {tbls : List Tbl} {t : Tbl} {e : Ent}
+    (hi : (newLevels s cd new0)[i]? = some tbls) (ht : t ∈ tbls) (he : e ∈ t.ents) :
+    (i ≠ cd.thisLevel ∧ i ≠ cd.nextLevel ∧ s.levels[i]? = some tbls) ∨
+    (i = cd.thisLevel ∧ cd.thisLevel ≠ cd.nextLevel ∧ t ∈ removeIdx (cdThisT s cd) cd.top) ∨
+    (i = cd.nextLevel ∧ t ∈ removeIdx (cdNextT s cd) (keptIdx cd)) ∨
+    (i = cd.nextLevel ∧ e ∈ topEnts s cd) ∨ (i = cd.nextLevel ∧ e ∈ botEnts s cd) := by
+  rw [newLevels_get new0 hc.1.1 hc.1.2.1] at hi
+  split at hi
+  · rename_i hcond
+    simp at hi; subst hi
+    exact .inr (.inl ⟨hcond.1, hcond.2, ht⟩)
+  · rename_i hcond
+    split at hi
+    · rename_i hnx
+      simp at hi; subst hi
+      rw [newNext_eq] at ht
+      rcases List.mem_append.mp (mem_sortBySmallest.mp ht) with ht | ht
+      · exact .inr (.inr (.inl ⟨hnx, ht⟩))
+      · rcases mem_compactOutput (((new_tables h hc hsp).1 t ht).2 e he) with h1 | h1
+        · exact .inr (.inr (.inr (.inl ⟨hnx, h1⟩)))
+        · exact .inr (.inr (.inr (.inr ⟨hnx, h1⟩)))
+    · rename_i hnx
+      refine .inl ⟨?_, hnx, hi⟩
+      intro hth
+      by_cases hne : cd.thisLevel = cd.nextLevel
+      · exact hnx (hth.trans hne)
+      · exact hcond ⟨hth, hne⟩
+
+/-- `e` is stored in a table of level `i` -/
+def InLevel (s : Lsm) (i : Nat) (e : Ent) : Prop :=
+  ∃ (tbls : List Tbl) (t : Tbl), s.levels[i]? = some tbls ∧ t ∈ tbls ∧ e ∈ t.ents
+
+theorem entry_origin_level {s : Lsm} {cd : CompactDef} {d n now : Nat} {new0 : List Tbl} (h : LsmInv s)
+    (hc : CompactOk s cd) (hsp : splitSizes cd.outSizes (compactOutput s cd d n now).1 = some new0)
+    {i : Nat} {tbls : List Tbl} {t : Tbl} {e : Ent}
+    (hi : (newLevels s cd new0)[i]? = some tbls) (ht : t ∈ tbls) (he : e ∈ t.ents) :
+    InLevel s i e ∨ (i = cd.nextLevel ∧ e ∈ topEnts s cd ∧ InLevel s cd.thisLevel e) := by
+  rcases entry_origin h hc hsp hi ht he with ⟨_, _, h3⟩ | ⟨h1, _, h3⟩ | ⟨h1, h3⟩ | ⟨h1, h3⟩ | ⟨h1, h3⟩
+  · exact .inl ⟨tbls, t, h3, ht, he⟩
+  · exact .inl ⟨_, t, h1 ▸ (this_level h hc.1).1, (removeIdx_sublist _ _).subset h3, he⟩
+  · exact .inl ⟨_, t, h1 ▸ (next_level h hc.1).1, (removeIdx_sublist _ _).subset h3, he⟩
+  · obtain ⟨tt, htt, hett⟩ := mem_topEnts.mp h3
+    exact .inr ⟨h1, h3, _, tt, (this_level h hc.1).1, tops_mem htt, hett⟩
+  · obtain ⟨tt, htt, hett⟩ := mem_botEnts.mp h3
+    exact .inl ⟨_, tt, h1 ▸ (next_level h hc.1).1, bots_mem htt, hett⟩
+
+theorem this_le_next {s : Lsm} {cd : CompactDef} (hc : CompactOk s cd) : cd.thisLevel ≤ cd.nextLevel := by
+  rcases hc.2 with hh | hh | hh | hh
+  · rw [hh.1]; omega
+  · rw [hh.2.1]; omega
+  · rw [hh.1, hh.2.1]; omega
+  · rw [hh.2.1]; omega
+
+/-- no table sits strictly between the two levels of a compaction -/
+theorem between_empty {s : Lsm} {cd : CompactDef} (hc : CompactOk s cd) {i : Nat} {tbls : List Tbl}
+    (h1 : cd.thisLevel < i) (h2 : i < cd.nextLevel) (hi : s.levels[i]? = some tbls) : tbls = [] := by
+  rcases hc.2 with hh | hh | hh | hh
+  · have := hh.2.2.2.1 i h2 (by omega)
+    rw [List.getD_eq_getElem?_getD, hi] at this
+    simpa using this
+  · rw [hh.2.1] at h2; omega
+  · rw [hh.2.1] at h2; omega
+  · rw [hh.2.1] at h2; omega
+
+/-- (C) recency is preserved by every well-formed compaction other than L0 → L0 -/
+theorem compact_layered {s s' : Lsm} {cd : CompactDef} {d n now : Nat} (h : LsmInv s) (hl : Layered s)
+    (hc : CompactOk s cd) (hnot : ¬ IsL0L0 s cd) (hs : s.compact cd d n now = some s') : Layered s' := by
+  obtain ⟨new0, hsp, rfl⟩ := compact_some hs
+  obtain ⟨p1, p2, p3, p4⟩ := (layered_iff s).mp hl
+  have hle := this_le_next hc
+  rw [layered_iff]
+  refine ⟨p1, ?_, ?_, ?_⟩
+  · intro x hx i tbls t hi ht e he hk
+    rcases entry_origin_level h hc hsp hi ht he with ⟨tb, t0, h1, h2, h3⟩ | ⟨_, _, tb, t0, h1, h2, h3⟩
+    · exact p2 x hx _ tb t0 h1 h2 e h3 hk
+    · exact p2 x hx _ tb t0 h1 h2 e h3 hk
+  · intro i i' tbls tbls' t t' hi hi' hlt ht ht' x hx e he hk
+    simp only at hi hi'
+    rcases entry_origin_level h hc hsp hi' ht' he with ⟨tb', t0', g1, g2, g3⟩ | ⟨gnext, gtop, _⟩
+    · rcases entry_origin_level h hc hsp hi ht hx with ⟨tb, t0, f1, f2, f3⟩ | ⟨fnext, _, tb, t0, f1, f2, f3⟩
+      · exact p3 i i' tb tb' t0 t0' f1 g1 hlt f2 g2 x f3 e g3 hk
+      · exact p3 _ i' tb tb' t0 t0' f1 g1 (by omega) f2 g2 x f3 e g3 hk
+    · rcases entry_origin h hc hsp hi ht hx with ⟨n1, n2, f3⟩ | ⟨f1, f2, f3⟩ | ⟨f1, _⟩ | ⟨f1, _⟩ | ⟨f1, _⟩
+      · obtain ⟨tt, htt, hett⟩ := mem_topEnts.mp gtop
+        by_cases hlow : i < cd.thisLevel
+        · exact p3 i _ tbls _ t tt f3 (this_level h hc.1).1 hlow ht (tops_mem htt) x hx e hett hk
+        · have := between_empty hc (by omega) (by omega) f3
+          rw [this] at ht; simp at ht
+      · exact rem_vs_tops h hl hc f2 f3 hx gtop hk
+      · omega
+      · omega
+      · omega
+  · intro l0 j j' a b h0 hj hj' hlt
+    simp only at h0
+    rw [newLevels_get new0 hc.1.1 hc.1.2.1] at h0
+    split at h0
+    · rename_i hcond
+      simp at h0; subst h0
+      rcases hc.2 with hh | hh | hh | hh
+      · obtain ⟨h0', _, hr, _, _⟩ := hh
+        have hrem : removeIdx (cdThisT s cd) cd.top = (cdThisT s cd).drop cd.top.length := by
+          have : removeIdx (cdThisT s cd) cd.top = removeIdx (cdThisT s cd) (List.range cd.top.length) := by rw [← hr]
+          rw [this, removeIdx_range]
+        rw [hrem, List.getElem?_drop] at hj hj'
+        have hthis := (this_level h hc.1).1
+        rw [h0'] at hthis
+        exact p4 _ _ _ a b hthis hj hj' (by omega)
+      · have := hh.1; omega
+      · exact absurd hh hnot
+      · have := hh.1; omega
+    · split at h0
+      · rename_i hnx
+        exfalso
+        rcases hc.2 with hh | hh | hh | hh
+        · have := hh.2.1; omega
+        · have := hh.2.1; omega
+        · exact hnot hh
+        · have := hh.1; have := hh.2.1; omega
+      · exact p4 l0 j j' a b h0 hj hj' hlt
+
+theorem flush_layered {s : Lsm} (hl : Layered s) (himm : s.imm = []) (id : Nat) : Layered (s.flush id) := by
+  rcases flush_eq_self_or s id with he | ⟨l0, rest, hlv, _, he⟩
+  · rw [he]; exact hl
+  · rw [he]
+    obtain ⟨p1, p2, p3, p4⟩ := (layered_iff s).mp hl
+    rw [layered_iff]
+    have hM : ∀ x ∈ s.mem, x ∈ memEnts s := fun x hx => mem_memEnts.mpr ⟨s.mem, by simp, hx⟩
+    refine ⟨?_, ?_, ?_, ?_⟩
+    · simp [himm]
+    · intro x hx
+      exfalso
+      unfold memEnts at hx; simp [himm] at hx
+    · intro i i' tbls tbls' t t' hi hi' hlt ht ht' x hx e he' hk
+      simp only at hi hi'
+      cases i' with
+      | zero => omega
+      | succ j' =>
+        have hi'' : s.levels[j' + 1]? = some tbls' := by rw [hlv]; simpa using hi'
+        cases i with
+        | zero =>
+          simp at hi; subst hi
+          rcases List.mem_append.mp ht with ht | ht
+          · exact p3 0 (j' + 1) l0 tbls' t t' (by rw [hlv]; rfl) hi'' (by omega) ht ht' x hx e he' hk
+          · simp at ht; subst ht
+            exact p2 x (hM x hx) (j' + 1) tbls' t' hi'' ht' e he' hk
+        | succ j =>
+          have hi2 : s.levels[j + 1]? = some tbls := by rw [hlv]; simpa using hi
+          exact p3 (j + 1) (j' + 1) tbls tbls' t t' hi2 hi'' hlt ht ht' x hx e he' hk
+    · intro l0' j j' a b h0 hj hj' hlt x hx e he' hk
+      simp at h0; subst h0
+      have h0s : s.levels[0]? = some l0 := by rw [hlv]; rfl
+      have hb : l0[j']? = some b := by
+        have hjl := (List.getElem?_eq_some_iff.mp hj).1
+        simp at hjl
+        rw [List.getElem?_append_left (by omega)] at hj'
+        exact hj'
+      by_cases hjl : j < l0.length
+      · rw [List.getElem?_append_left hjl] at hj
+        exact p4 l0 j j' a b h0s hj hb hlt x hx e he' hk
+      · have hjl2 := (List.getElem?_eq_some_iff.mp hj).1
+        simp at hjl2
+        have : j = l0.length := by omega
+        subst this
+        simp at hj; subst hj
+        exact p2 x (hM x hx) 0 l0 b h0s (List.mem_of_getElem? hb) e he' hk
+
+end LL
+
+/-- no internal key occurs in two different tables -/
+def TblsDistinct (l : List Tbl) : Prop :=
+  l.Pairwise (fun a b => ∀ x ∈ a.ents, ∀ y ∈ b.ents, x.key = y.key → x.ver ≠ y.ver)
+
+instance (l : List Tbl) : Decidable (TblsDistinct l) := by unfold TblsDistinct; infer_instance
+
+namespace LL
+
+theorem tblsDistinct_perm {l l' : List Tbl} (hp : l.Perm l') : TblsDistinct l ↔ TblsDistinct l' := by
+  unfold TblsDistinct
+  apply List.Perm.pairwise_iff _ hp
+  intro a b hab x hx y hy hk hv
+  exact hab y hy x hx hk.symm hv.symm
+
+theorem nl_tables_perm {l l' : List Tbl} (hp : l.Perm l') (hd : TblsDistinct l) (k : Bytes) (ts : Nat) :
+    newestLE (l.map (·.ents)).flatten k ts = newestLE (l'.map (·.ents)).flatten k ts := by
+  induction hp with
+  | nil => rfl
+  | cons a _ ih =>
+    simp only [List.map_cons, List.flatten_cons, newestLE_append]
+    rw [ih (List.pairwise_cons.mp hd).2]
+  | swap a b l =>
+    simp only [List.map_cons, List.flatten_cons, newestLE_append]
+    rw [← pick_assoc, ← pick_assoc]
+    congr 1
+    apply pick_comm_of_ne
+    intro x y hx hy
+    obtain ⟨x1, x2, _, _⟩ := newestLE_some hx
+    obtain ⟨y1, y2, _, _⟩ := newestLE_some hy
+    have := (List.pairwise_cons.mp hd).1 a (by simp)
+    exact this x x1 y y1 (x2.trans y2.symm)
+  | trans p1 _ ih1 ih2 =>
+    rw [ih1 hd, ih2 ((tblsDistinct_perm p1).mp hd)]
+
+theorem nl_chunk0_perm {l l' : List Tbl} (hp : l.Perm l') (hd : TblsDistinct l) (k : Bytes) (ts : Nat) :
+    newestLE (lvlChunk 0 l) k ts = newestLE (lvlChunk 0 l') k ts := by
+  unfold lvlChunk
+  simp only [if_true]
+  have hp' : l.reverse.Perm l'.reverse := ((List.reverse_perm l).trans hp).trans (List.reverse_perm l').symm
+  exact nl_tables_perm hp' ((tblsDistinct_perm (List.reverse_perm l).symm).mp hd) k ts
+
+end LL
+namespace LL
+
+/-- an internal key determines the entry -/
+def KVFun (L : List Ent) : Prop := ∀ x ∈ L, ∀ y ∈ L, x.key = y.key → x.ver = y.ver → x = y
+
+theorem kvFun_of_sorted {L : List Ent} (hs : SortedEnts L) : KVFun L :=
+  fun _ hx _ hy hk hv => sorted_unique hs hx hy hk hv
+
+theorem newestLE_kvFun_iff {L : List Ent} (hf : KVFun L) {k : Bytes} {ts : Nat} {e : Ent} :
+    newestLE L k ts = some e ↔
+      e ∈ L ∧ e.key = k ∧ e.ver ≤ ts ∧ ∀ x ∈ L, x.key = k → x.ver ≤ ts → x.ver ≤ e.ver := by
+  constructor
+  · exact newestLE_some
+  · rintro ⟨h1, h2, h3, h4⟩
+    cases hr : newestLE L k ts with
+    | none => exact absurd ⟨h2, h3⟩ (newestLE_eq_none.mp hr e h1)
+    | some r =>
+      obtain ⟨r1, r2, r3, r4⟩ := newestLE_some hr
+      have hv : r.ver = e.ver := Nat.le_antisymm (h4 r r1 r2 r3) (r4 e h1 h2 h3)
+      rw [hf r r1 e h1 (r2.trans h2.symm) hv]
+
+/-- when an internal key determines the entry, the read is determined by the set of members -/
+theorem newestLE_union_kv {L A B : List Ent} (hf : KVFun L) (hm : ∀ e, e ∈ L ↔ e ∈ A ∨ e ∈ B)
+    (k : Bytes) (ts : Nat) : newestLE L k ts = pick (newestLE A k ts) (newestLE B k ts) := by
+  have hmaxA : ∀ x ∈ A, x.key = k → x.ver ≤ ts → ∃ a, newestLE A k ts = some a ∧ x.ver ≤ a.ver := by
+    intro x hx hk hv
+    cases hr : newestLE A k ts with
+    | none => exact absurd ⟨hk, hv⟩ (newestLE_eq_none.mp hr x hx)
+    | some a => exact ⟨a, rfl, (newestLE_some hr).2.2.2 x hx hk hv⟩
+  have hmaxB : ∀ x ∈ B, x.key = k → x.ver ≤ ts → ∃ a, newestLE B k ts = some a ∧ x.ver ≤ a.ver := by
+    intro x hx hk hv
+    cases hr : newestLE B k ts with
+    | none => exact absurd ⟨hk, hv⟩ (newestLE_eq_none.mp hr x hx)
+    | some a => exact ⟨a, rfl, (newestLE_some hr).2.2.2 x hx hk hv⟩
+  cases hp : pick (newestLE A k ts) (newestLE B k ts) with
+  | none =>
+    obtain ⟨ha, hb⟩ := pick_eq_none.mp hp
+    apply newestLE_eq_none.mpr
+    intro x hx
+    rcases (hm x).mp hx with h | h
+    · exact newestLE_eq_none.mp ha x h
+    · exact newestLE_eq_none.mp hb x h
+  | some e =>
+    apply (newestLE_kvFun_iff hf).mpr
+    rcases pick_some hp with ⟨h1, h2⟩ | ⟨h1, h2⟩
+    · obtain ⟨m1, m2, m3, _⟩ := newestLE_some h1
+      refine ⟨(hm e).mpr (.inl m1), m2, m3, ?_⟩
+      intro x hx hk hv
+      rcases (hm x).mp hx with h | h
+      · obtain ⟨a, ha, hle⟩ := hmaxA x h hk hv
+        rw [h1] at ha; cases ha; exact hle
+      · obtain ⟨b, hb, hle⟩ := hmaxB x h hk hv
+        exact Nat.le_trans hle (h2 b hb)
+    · obtain ⟨m1, m2, m3, _⟩ := newestLE_some h1
+      refine ⟨(hm e).mpr (.inr m1), m2, m3, ?_⟩
+      intro x hx hk hv
+      rcases (hm x).mp hx with h | h
+      · obtain ⟨a, ha, hle⟩ := hmaxA x h hk hv
+        exact Nat.le_trans hle (Nat.le_of_lt (h2 a ha))
+      · obtain ⟨b, hb, hle⟩ := hmaxB x h hk hv
+        rw [h1] at hb; cases hb; exact hle
+
+/-- level 0 with distinct internal keys across its (sorted) tables -/
+theorem kvFun_chunk {i : Nat} {l : List Tbl} (hs : ∀ t ∈ l, SortedEnts t.ents) (hd : TblsDistinct l) :
+    KVFun (lvlChunk i l) := by
+  intro x hx y hy hk hv
+  obtain ⟨a, ha, hxa⟩ := mem_lvlChunk.mp hx
+  obtain ⟨b, hb, hyb⟩ := mem_lvlChunk.mp hy
+  obtain ⟨ia, hia, rfl⟩ := List.getElem_of_mem ha
+  obtain ⟨ib, hib, rfl⟩ := List.getElem_of_mem hb
+  have hp := List.pairwise_iff_getElem.mp hd
+  rcases Nat.lt_trichotomy ia ib with hlt | heq | hgt
+  · exact absurd hv (hp ia ib hia hib hlt x hxa y hyb hk)
+  · subst heq; exact sorted_unique (hs _ ha) hxa hyb hk hv
+  · exact absurd hv.symm (hp ib ia hib hia hgt y hyb x hxa hk.symm)
+
+/-- `reads_core` with the "kept tables do not hold the key" fact as a hypothesis (level 0 has no
+    key-disjointness to derive it from) -/
+theorem reads_core' {s : Lsm} {cd : CompactDef} {d n now' now ts : Nat} {k : Bytes} (h : LsmInv s)
+    (hc : CompactOk s cd) (hdp : cd.dropPrefixes = [])
+    (hts : d ≤ ts) (hnow : now' ≤ now) {U Z : Option Ent}
+    (hK : ∀ e, newestLE (cdMerged s cd) k ts = some e → deletedOrExpired e.emeta e.exp now' = true →
+      newestLE (compactOutput s cd d n now').1 k ts = none → newestLE (keptEnts s cd) k ts = none)
+    (hZ : cdHasOverlap s cd = false → ∀ e ∈ topEnts s cd ++ botEnts s cd, e.key = k → Z = none)
+    (hU : ∀ x e, U = some x → e ∈ topEnts s cd ++ botEnts s cd → e.key = k → e.ver ≤ x.ver) :
+    visible now (pick U (pick (newestLE (compactOutput s cd d n now').1 k ts)
+        (pick (newestLE (keptEnts s cd) k ts) Z))) =
+      visible now (pick U (pick (newestLE (cdMerged s cd) k ts) (pick (newestLE (keptEnts s cd) k ts) Z))) := by
+  have hK' := hK
+  rw [compactOutput_eq hdp] at hK' ⊢
+  simp only at hK' ⊢
+  apply read_fallthrough
+  have hp : ({ discardTs := d, numKeep := n, hasOverlap := cdHasOverlap s cd, now := now', dropPrefixes := [] } : CParams).discardTs ≤ ts := hts
+  rcases C12_filter_reads_refined (merged_sorted h hc) rfl hp k with heq | ⟨hnone, hov, e, he, hdead⟩
+  · exact .inl heq
+  · right
+    obtain ⟨m1, m2, _, _⟩ := newestLE_some he
+    have hin : e ∈ topEnts s cd ++ botEnts s cd := List.mem_append.mpr (mem_merged m1)
+    refine ⟨hnone, e, he, deletedOrExpired_mono hnow hdead, ?_, fun x hx => hU x e hx hin m2⟩
+    rw [hK' e he hdead hnone, hZ hov e hin m2]; rfl
+
+/-- L0 → L0 under distinct internal keys across L0 and "no excluded table shares a user key with a
+    dropped marker" -/
+theorem compact_reads_l0l0 {s s' : Lsm} {cd : CompactDef} {d n now' now ts : Nat} {k : Bytes} (h : LsmInv s)
+    (hv : VerBound s) (hl : Layered s) (hc : CompactOk s cd) (hk0 : IsL0L0 s cd)
+    (hdist : TblsDistinct (cdThisT s cd))
+    (hex : ∀ e ∈ topEnts s cd, deletedOrExpired e.emeta e.exp now' = true →
+      e ∉ (compactOutput s cd d n now').1 →
+      ∀ t ∈ removeIdx (cdThisT s cd) cd.top, ∀ x ∈ t.ents, x.key ≠ e.key)
+    (hdp : cd.dropPrefixes = []) (hs : s.compact cd d n now' = some s') (hts : d ≤ ts) (hnow : now' ≤ now) :
+    visible now (s'.get k ts) = visible now (s.get k ts) := by
+  have hinvW := compact_invW h hv hc hs
+  obtain ⟨new0, hsp, rfl⟩ := compact_some hs
+  obtain ⟨hth, hnx, hbot⟩ := hk0
+  have heq : cd.nextLevel = cd.thisLevel := hnx.trans hth.symm
+  have hq := hc.1.2.1
+  have hnt := nextT_eq_thisT (s := s) heq
+  obtain ⟨_, htok⟩ := this_level h hc.1
+  have hkidx : keptIdx cd = cd.top := by unfold keptIdx; rw [if_pos heq.symm, hbot]; simp
+  have hbotE : botEnts s cd = [] := by unfold botEnts cdBots; rw [hbot]; simp [pickIdx]
+  rw [get_eq_newestLE hinvW, get_eq_newestLE (lsmInv_weaken h), newestLE_allEntries, newestLE_allEntries]
+  have hmem : memEnts ({ s with levels := newLevels s cd new0 } : Lsm) = memEnts s := rfl
+  rw [hmem]
+  simp only
+  have hnl : newLevels s cd new0 = s.levels.set cd.nextLevel (newNext s cd new0) := by
+    unfold newLevels; rw [if_pos heq.symm]
+  -- the old level 0
+  have hold : newestLE (lvlChunk cd.nextLevel (cdNextT s cd)) k ts =
+      pick (newestLE (lvlChunk cd.thisLevel (cdTops s cd)) k ts) (newestLE (keptEnts s cd) k ts) := by
+    rw [hnt, heq]
+    apply newestLE_union_kv (kvFun_chunk (fun t ht => (htok.1 t ht).2) hdist)
+    intro e
+    rw [mem_lvlChunk, mem_lvlChunk, mem_keptEnts, hkidx, hnt]
+    unfold cdTops
+    constructor
+    · rintro ⟨t, ht, he⟩
+      rcases (mem_pick_or_remove _ cd.top t).mp ht with h1 | h1
+      · exact .inl ⟨t, h1, he⟩
+      · exact .inr ⟨t, h1, he⟩
+    · rintro (⟨t, ht, he⟩ | ⟨t, ht, he⟩)
+      · exact ⟨t, (mem_pick_or_remove _ cd.top t).mpr (.inl ht), he⟩
+      · exact ⟨t, (mem_pick_or_remove _ cd.top t).mpr (.inr ht), he⟩
+  -- the new level 0
+  obtain ⟨hnew, _⟩ := new_tables h hc hsp
+  obtain ⟨hflat, _⟩ := splitSizes_spec hsp
+  have hN : ∀ e, e ∈ (compactOutput s cd d n now').1 ↔ ∃ t ∈ withIds new0 cd.outIds, e ∈ t.ents := by
+    intro e
+    rw [← hflat, ← withIds_map_ents new0 cd.outIds]
+    constructor
+    · intro h'
+      obtain ⟨l, hl', hel⟩ := List.mem_flatten.mp h'
+      obtain ⟨t, ht, rfl⟩ := List.mem_map.mp hl'
+      exact ⟨t, ht, hel⟩
+    · rintro ⟨t, ht, hel⟩
+      exact List.mem_flatten.mpr ⟨t.ents, List.mem_map.mpr ⟨t, ht, rfl⟩, hel⟩
+  have hmemNew : ∀ e, e ∈ lvlChunk cd.nextLevel (newNext s cd new0) ↔
+      e ∈ (compactOutput s cd d n now').1 ∨ e ∈ keptEnts s cd := by
+    intro e
+    rw [mem_lvlChunk, mem_keptEnts, hN, newNext_eq]
+    constructor
+    · rintro ⟨t, ht, he⟩
+      rcases List.mem_append.mp (mem_sortBySmallest.mp ht) with h1 | h1
+      · exact .inr ⟨t, h1, he⟩
+      · exact .inl ⟨t, h1, he⟩
+    · rintro (⟨t, ht, he⟩ | ⟨t, ht, he⟩)
+      · exact ⟨t, mem_sortBySmallest.mpr (List.mem_append_right _ ht), he⟩
+      · exact ⟨t, mem_sortBySmallest.mpr (List.mem_append_left _ ht), he⟩
+  have hkeptFun : KVFun (keptEnts s cd) := by
+    have : keptEnts s cd = lvlChunk 1 (removeIdx (cdNextT s cd) (keptIdx cd)) := by
+      unfold keptEnts lvlChunk; simp
+    rw [this, hnt]
+    apply kvFun_chunk (fun t ht => (htok.1 t ((removeIdx_sublist _ _).subset ht)).2)
+    exact List.Pairwise.sublist (removeIdx_sublist _ _) hdist
+  have hnewFun : KVFun (lvlChunk cd.nextLevel (newNext s cd new0)) := by
+    have hout := out_sorted h hc d n now'
+    intro x hx y hy hkxy hvxy
+    have cross : ∀ a b, a ∈ (compactOutput s cd d n now').1 → b ∈ keptEnts s cd → a.key = b.key → a.ver = b.ver → False := by
+      intro a b ha hb hkab hvab
+      rcases mem_compactOutput ha with h1 | h1
+      · obtain ⟨ta, hta, hata⟩ := mem_topEnts.mp h1
+        obtain ⟨ja, hja, hjta⟩ := mem_pickIdx.mp hta
+        obtain ⟨tb, htb, hbtb⟩ := mem_keptEnts.mp hb
+        rw [hkidx, hnt] at htb
+        obtain ⟨jb, hjtb, hjb⟩ := mem_removeIdx.mp htb
+        have hp := List.pairwise_iff_getElem.mp hdist
+        obtain ⟨hla, hea⟩ := List.getElem?_eq_some_iff.mp hjta
+        obtain ⟨hlb, heb⟩ := List.getElem?_eq_some_iff.mp hjtb
+        rcases Nat.lt_trichotomy ja jb with hlt | heq' | hgt
+        · have := hp ja jb hla hlb hlt; rw [hea, heb] at this
+          exact this a hata b hbtb hkab hvab
+        · subst heq'; exact hjb hja
+        · have := hp jb ja hlb hla hgt; rw [hea, heb] at this
+          exact this b hbtb a hata hkab.symm hvab.symm
+      · rw [hbotE] at h1; simp at h1
+    rcases (hmemNew x).mp hx with hx1 | hx1 <;> rcases (hmemNew y).mp hy with hy1 | hy1
+    · exact sorted_unique hout hx1 hy1 hkxy hvxy
+    · exact absurd (cross x y hx1 hy1 hkxy hvxy) id
+    · exact absurd (cross y x hy1 hx1 hkxy.symm hvxy.symm) id
+    · exact hkeptFun x hx1 y hy1 hkxy hvxy
+  have hnewL : newestLE (lvlChunk cd.nextLevel (newNext s cd new0)) k ts =
+      pick (newestLE (compactOutput s cd d n now').1 k ts) (newestLE (keptEnts s cd) k ts) :=
+    newestLE_union_kv hnewFun hmemNew k ts
+  rw [hnl, readLv_split k ts hq, readLv_split_self k ts hq, nextT_eq hq, hold, hnewL]
+  have core := reads_core' (s := s) (cd := cd) (d := d) (n := n) (now' := now') (now := now) (ts := ts) (k := k)
+    h hc hdp hts hnow
+    (U := pick (newestLE (memEnts s) k ts) (readLv k ts 0 (s.levels.take cd.nextLevel)))
+    (Z := readLv k ts (cd.nextLevel + 1) (s.levels.drop (cd.nextLevel + 1)))
+    (by
+      intro e he hdead hnone
+      obtain ⟨m1, m2, m3, _⟩ := newestLE_some he
+      have hetop : e ∈ topEnts s cd := by
+        rcases mem_merged m1 with h1 | h1
+        · exact h1
+        · rw [hbotE] at h1; simp at h1
+      have henot : e ∉ (compactOutput s cd d n now').1 := by
+        intro hin
+        exact newestLE_eq_none.mp hnone e hin ⟨m2, m3⟩
+      apply newestLE_eq_none.mpr
+      rintro x hx ⟨hxk, _⟩
+      obtain ⟨t, ht, hxt⟩ := mem_keptEnts.mp hx
+      rw [hkidx, hnt] at ht
+      exact hex e hetop hdead henot t ht x hxt (hxk.trans m2.symm))
+    (by
+      intro hov e he hk
+      have := below_no_key h hv hc hov he ts
+      rwa [hk] at this)
+    (by
+      intro x e hx he hk
+      rw [heq] at hx
+      exact upper_rec h hl hc (by omega) hx he hk)
+  rw [nl_merged h hc, hbotE] at core
+  simp only [newestLE_nil, pick_none_right, pick_assoc] at core ⊢
+  exact core
+
+end LL
+
+/-- the write path's effect on the LSM state: `memPut` of one committed entry (`Db.commit` folds
+    this over the entries of a transaction) -/
+def Lsm.putEnt (s : Lsm) (e : Ent) : Lsm := { s with mem := memPut e s.mem }
+
+namespace LL
+
+theorem mem_allEntries_put {s : Lsm} {e x : Ent} (h : x ∈ (s.putEnt e).allEntries) : x = e ∨ x ∈ s.allEntries := by
+  rw [mem_allEntries] at h
+  rcases h with h | h | h
+  · rcases mem_memPut_imp h with h | h
+    · exact .inl h
+    · exact .inr (mem_allEntries.mpr (.inl h))
+  · exact .inr (mem_allEntries.mpr (.inr (.inl h)))
+  · exact .inr (mem_allEntries.mpr (.inr (.inr h)))
+
+theorem put_inv {s : Lsm} (h : LsmInv s) {e : Ent} (he : 0 < e.ver) : LsmInv (s.putEnt e) := by
+  refine ⟨memPut_sorted h.1, h.2.1, h.2.2.1, ?_⟩
+  intro x hx
+  rcases mem_allEntries_put hx with rfl | hx
+  · exact he
+  · exact h.2.2.2 x hx
+
+theorem put_verBound {s : Lsm} (hv : VerBound s) {e : Ent} (he : e.ver ≤ maxU64) : VerBound (s.putEnt e) := by
+  intro x hx
+  rcases mem_allEntries_put hx with rfl | hx
+  · exact he
+  · exact hv x hx
+
+theorem nl_memEnts_put (s : Lsm) (e : Ent) (k : Bytes) (ts : Nat) :
+    newestLE (memEnts (s.putEnt e)) k ts = pick (cand k ts e) (newestLE (memEnts s) k ts) := by
+  unfold memEnts Lsm.putEnt
+  simp only [newestLE_append]
+  rw [newestLE_memPut, newestLE_cons, pick_assoc]
+
+/-- a read after a write sees the new entry first -/
+theorem put_get {s : Lsm} (h : LsmInv s) {e : Ent} (he : 0 < e.ver) (k : Bytes) (ts : Nat) :
+    (s.putEnt e).get k ts = newestLE (e :: s.allEntries) k ts := by
+  rw [get_eq_newestLE (lsmInv_weaken (put_inv h he)), newestLE_allEntries, nl_memEnts_put, newestLE_cons,
+    newestLE_allEntries, pick_assoc]
+  rfl
+
+theorem put_layered {s : Lsm} (hl : Layered s) {e : Ent}
+    (hnew : ∀ x ∈ s.allEntries, x.key = e.key → x.ver ≤ e.ver) : Layered (s.putEnt e) := by
+  obtain ⟨p1, p2, p3, p4⟩ := (layered_iff s).mp hl
+  rw [layered_iff]
+  have hmemE : ∀ x ∈ memEnts (s.putEnt e), x = e ∨ x ∈ memEnts s := by
+    intro x hx
+    unfold memEnts Lsm.putEnt at hx
+    rcases List.mem_append.mp hx with h1 | h1
+    · rcases mem_memPut_imp h1 with h2 | h2
+      · exact .inl h2
+      · exact .inr (List.mem_append_left _ h2)
+    · exact .inr (List.mem_append_right _ h1)
+  refine ⟨?_, ?_, p3, p4⟩
+  · obtain ⟨q1, q2⟩ := List.pairwise_cons.mp p1
+    refine List.pairwise_cons.mpr ⟨?_, q2⟩
+    intro m hm x hx y hy hk
+    rcases mem_memPut_imp hx with rfl | hx
+    · apply hnew y _ hk.symm
+      exact mem_allEntries.mpr (.inr (.inl ⟨m, List.mem_reverse.mp hm, hy⟩))
+    · exact q1 m hm x hx y hy hk
+  · intro x hx i tbls t hi ht y hy hk
+    rcases hmemE x hx with rfl | hx
+    · exact hnew y (mem_allEntries.mpr (.inr (.inr ⟨i, tbls, t, hi, ht, hy⟩))) hk.symm
+    · exact p2 x hx i tbls t hi ht y hy hk
+
 end LL
 end Badger
